@@ -351,10 +351,12 @@ impl C12 {
     /// (e) command-line target strings and (f) the whole command line path in-process
     fn targets(&mut self, case: &Case, env: &Env) -> CaseOut {
         util::fresh_cwd(&env.dir.join("c12t"));
-        std::fs::write("build.ninja", "rule r\n  command = c\nbuild out: r in\nbuild a/b: phony out\n").unwrap();
+        // (an output-less statement is accepted by the grammar; it is the first user of in2)
+        std::fs::write("build.ninja", "rule r\n  command = c\nbuild : phony in2\nbuild out2 | imp2: r in2 | in || out\nbuild out: r in\nbuild a/b: phony out\n").unwrap();
         std::fs::write("in", "x").unwrap();
+        std::fs::write("in2", "x").unwrap();
         let mut t = Tape::new(&case.main);
-        let frags = ["", "out", "a/b", "./", "../", "/", "\\", ".", "..", "a", "\u{e9}", " ", "$", ":", "\n", "\u{1F600}", "//", "a/../", "x/"];
+        let frags = ["", "out", "a/b", "./", "../", "/", "\\", ".", "..", "a", "\u{e9}", " ", "$", ":", "\n", "\u{1F600}", "//", "a/../", "x/", "in", "in2", "^", "@", "imp2", "2", "*", "?", "|", "="];
         let n = t.below(6);
         let mut target = String::new();
         for _ in 0..n {
@@ -424,14 +426,15 @@ impl Check for C12 {
             Part { name: "tokens", kind: PartKind::Enum { units: 26 * 26 } },
             Part { name: "mutants", kind: PartKind::Random { cases: tier.pick(400_000, 4_000_000), main: 160, ops: 2, oplen: 120, sched: 0 } },
             Part { name: "targets", kind: PartKind::Random { cases: tier.pick(100_000, 1_000_000), main: 10, ops: 0, oplen: 0, sched: 0 } },
-            Part { name: "depfiles", kind: PartKind::Enum { units: 125 } },
+            Part { name: "depfiles", kind: PartKind::Enum { units: 125 + 81 } },
             Part { name: "bb-cli", kind: PartKind::Random { cases: tier.pick(96, 2000), main: 160, ops: 2, oplen: 120, sched: 0 } },
         ]
     }
     fn run_unit(&mut self, part: &str, u: u64, env: &mut Env) -> CaseOut {
         if part == "depfiles" {
             // C12 also speaks of depfiles: the exhaustive totality enumeration of C15, reported under C12
-            let mut out = crate::tot::c15::C15.enum_unit(u, env.tier.pick(8, 10), env);
+            // (units 125.. : the second alphabet with CR, tab and multi-byte names)
+            let mut out = if u >= 125 { crate::tot::c15::C15.enum_wide_unit(u - 125, env.tier.pick(6, 7), env) } else { crate::tot::c15::C15.enum_unit(u, env.tier.pick(8, 10), env) };
             for v in out.viols.iter_mut() {
                 v.prop = "C12".into();
             }
@@ -449,13 +452,19 @@ impl Check for C12 {
     fn run_replay(&mut self, _part: &str, replay: &Value, env: &mut Env) -> CaseOut {
         prepare_dir(env);
         let raw = if replay["raw_bytes"].is_array() { &replay["raw_bytes"] } else { &replay["manifest_bytes"] };
-        if let Some(d) = replay["depfile"].as_str() {
+        let dep_bytes: Option<Vec<u8>> = match (replay["depfile_bytes"].as_array(), replay["depfile"].as_str()) {
+            (Some(a), _) => Some(a.iter().map(|x| x.as_u64().unwrap_or(0) as u8).collect()),
+            (None, Some(d)) => Some(d.as_bytes().to_vec()),
+            _ => None,
+        };
+        if let Some(db) = dep_bytes {
+            let d = String::from_utf8_lossy(&db).into_owned();
             let mut out = CaseOut { evals: 1, ..Default::default() };
             if !survives(|| {
-                let _ = crate::tot::c15::parse(d.as_bytes());
+                let _ = crate::tot::c15::parse(&db);
             }) {
                 out.viols.push(Viol::new("C12", "process-death", format!("parsing depfile {:?} kills the process", d)));
-            } else if let Err((k, m)) = crate::tot::c15::totality_one(d.as_bytes()) {
+            } else if let Err((k, m)) = crate::tot::c15::totality_one(&db) {
                 out.viols.push(Viol::new("C12", k, m));
             }
             return out;
